@@ -192,8 +192,10 @@ def run(ctx):
         bad = lib.unexplained(r)
         newbad = []
         for (ln, cls) in bad:
-            if cls in known_ids:
-                ctx.known_hits[cls] = [x for x in ctx.known if x["id"] == cls][0]["what"]
+            ids = cls.split("+")        # a line may show several known findings at once
+            if all(i in known_ids for i in ids):
+                for i in ids:
+                    ctx.known_hits[i] = [x for x in ctx.known if x["id"] == i][0]["what"]
             else:
                 newbad.append((ln, cls))
         if newbad:
